@@ -104,6 +104,24 @@ def pruneVersion (v : String) : Nat :=
   | some (.ofNat n) => n
   | _ => 0
 
+/-- `Verif.MptStore.orderStuck` (Lemmas/OrderChanges; repeated here because drivers import models only): does the
+    ordering of `mergeChanges` apply nothing in some pass? -/
+def orderStuckLoopD : Nat → List (Change Ref) → Map Bytes Nat → Bool
+  | 0, pending, _ => !pending.isEmpty
+  | fuel + 1, pending, m =>
+    if pending.isEmpty then false
+    else
+      let r := orderPass sha3 pending m
+      if r.2.1.length = pending.length then true
+      else orderStuckLoopD fuel r.2.1 r.2.2
+
+def orderStuckD (changes : List (Change Ref)) : Bool :=
+  let counts := changes.foldl (fun m c =>
+    match c.old with
+    | some o => Map.put m (o.key sha3) (replCount m (o.key sha3) + 1)
+    | none => m) ([] : Map Bytes Nat)
+  orderStuckLoopD (changes.length + 1) changes counts
+
 def lastSaved (s : St) : Bytes × Node :=
   match s.saved.getLast? with
   | some (_, r, t) => (r, t)
@@ -167,7 +185,10 @@ def step (s : St) (w : List String) : St × String :=
       match findTrie s pid with
       | some (_, p) =>
         match mergeMPTChangesOrd sha3 p c (mergeOrder c.cc.getChanges) with
-        | .ok p' => (closeTrie (setTrie s pid p') id, "ok " ++ rootStr p'.root)
+        | .ok p' =>
+          -- hypothesis of the closed merge theorems, evaluated on every replayed merge: the ordering is never stuck
+          let stuck := if orderStuckD (mergeOrder c.cc.getChanges) || orderStuckD c.cc.getChanges then " ORDER-STUCK" else ""
+          (closeTrie (setTrie s pid p') id, "ok " ++ rootStr p'.root ++ stuck)
         | .stale => (s, "stale")
       | none => (s, "bad-op")
     | none => (s, "bad-op")
